@@ -83,11 +83,12 @@ class ivmpf(object):
     def __int__(self):
         return self.cast(int, libmp.to_int)
 
+    # (to_float truncates unless it is given a mode: the nearest double)
     def __float__(self):
-        return self.cast(float, libmp.to_float)
+        return self.cast(float, lambda v: libmp.to_float(v, rnd=libmp.round_nearest))
 
     def __complex__(self):
-        return self.cast(complex, libmp.to_float)
+        return self.cast(complex, lambda v: libmp.to_float(v, rnd=libmp.round_nearest))
 
     def __reduce__(self):
         return _iv_reduce(self, 'mpf', self._mpi_)
